@@ -10,6 +10,7 @@ import (
 	"fmt"
 	"reflect"
 	"sort"
+	"strconv"
 	"strings"
 
 	"github.com/dave/jennifer/jen"
@@ -348,6 +349,32 @@ func cmdForms(args []string) {
 		s := jen.Qual(path, "F").Call(jen.Qual("a/pkg", "V"))
 		g, r, w := renderAll(s)
 		tw.Emit(Rec{"ev": "entry", "id": id, "name": fmt.Sprintf("statement %d (%s)", i+1, path), "gostring": g, "render": r, "withfile": w})
+	}
+	// ... and for LARGE values: a block of several thousand statements (more than 64 KiB of output), a statement of
+	// several hundred items, a call nested a hundred levels deep
+	{
+		big := []*jen.Statement{}
+		blk := []jen.Code{}
+		for i := 0; i < 4000; i++ {
+			blk = append(blk, jen.If(jen.Id("x").Op(">").Lit(i)).Block(jen.Return(jen.Lit(i))))
+		}
+		big = append(big, jen.Func().Id("big").Params(jen.Id("x").Int()).Int().Block(blk...))
+		sum := jen.Id("a0")
+		for i := 1; i < 400; i++ {
+			sum.Op("+").Id("a" + strconv.Itoa(i))
+		}
+		big = append(big, jen.Id("total").Op(":=").Add(sum))
+		deep := jen.Id("leaf")
+		for i := 0; i < 100; i++ {
+			deep = jen.Id("f" + strconv.Itoa(i)).Call(deep)
+		}
+		big = append(big, deep)
+		for i, s := range big {
+			id++
+			tw.Traces++
+			g, r, w := renderAll(s)
+			tw.Emit(Rec{"ev": "entry", "id": id, "name": fmt.Sprintf("large value %d", i+1), "gostring": Hash([]byte(g)), "render": Hash([]byte(r)), "withfile": Hash([]byte(w))})
+		}
 	}
 	// the callback of a Group-method ...Func form runs INSIDE the constructing call, i.e. before the new statement is
 	// appended to the group: a callback that also appends to the enclosing group ("hoists" a declaration) gives the same
